@@ -10,15 +10,22 @@
    Results: [Ok], [ParseErr] (the Go parser records an error: parser.Parse returns err != nil),
    [OOF reason] (the input leaves the modelled fragment; the model never guesses), [OutOfFuel].
 
-   Faithfulness limit stated once: strings.ToUpper is modelled on ASCII ([to_upper]); the driver entry
-   points ([run_cast_as], [run_cast_op]) answer OOF for inputs with a non-ASCII IDENT value. *)
+   Faithfulness limit stated once: strings.ToUpper is modelled on ASCII ([to_upper]).  The Go code uses
+   strings.ToUpper(<name>) only in `==` tests against ASCII constants (parseDataType, isDataTypeName,
+   parseIdentifierOrFunction's DATE/TIMESTAMP/TIME test), so the ASCII-only model is exact for a name that is
+   ASCII, and also for a name whose Unicode upper-casing cannot be ASCII (some rune of it upper-cases to a rune
+   >= 0x80, or it contains an invalid byte, which strings.Map turns into U+FFFD): every such test is false in
+   Go, and false in the model because [to_upper] leaves the byte >= 0x80 in place.  The driver entry points
+   ([run_cast_as], [run_cast_op]) answer OOF for every other name (`ſtring`, `ı`, KELVIN SIGN ...: all non-ASCII
+   runes upper-case into ASCII); see [name_ok]. *)
 From Coq Require Import List NArith Bool.
+From DC Require Base.Utf8 Base.Unicode.
 From DC Require Import Base.Item Gen.TokenTable Expr.TypeBase.
 Import ListNotations.
 Local Open Scope N_scope.
 
 Inductive oof :=
-| OofNonAsciiName      (* an IDENT/keyword value with a byte >= 0x80 (strings.ToUpper is Unicode-aware) *)
+| OofNonAsciiName      (* a non-ASCII IDENT/keyword value whose strings.ToUpper might be ASCII (see [name_ok]) *)
 | OofObjectType        (* JSON(...) / OBJECT(...): ObjectTypeArgument, SKIP, dotted paths *)
 | OofExprToken         (* parameter starts with + * ( [ ? {param}: prefix forms outside the fragment *)
 | OofExprOperator      (* an operator / postfix token follows a parameter operand (other than STRING = number) *)
@@ -382,14 +389,35 @@ Definition cast_op_text (fuel : nat) (ts : list tok) : res (list N * list tok) :
 (* entry points used by the driver: the tokens of <T> alone, as lexer.Tokenize returns them *)
 
 Definition drop_eof (ts : list tok) : list tok := filter (fun t => negb (tok_is T_EOF t)) ts.
-Definition ascii_names (ts : list tok) : bool :=
-  forallb (fun t => negb (is_name t) || is_ascii (tv t)) ts.
+
+(* Does some rune of s upper-case (unicode.ToUpper, tables of Gen/UnicodeTables.v) to a rune >= 0x80?
+   Runes as `for _, c := range s` / strings.Map deliver them: Base.Utf8.decode_rune, an invalid byte is
+   U+FFFD of width 1 (and unicode.ToUpper(U+FFFD) = U+FFFD).  Fuel: the length of s (every step consumes >= 1 byte). *)
+Fixpoint upper_has_nonascii (fuel : nat) (s : list N) : bool :=
+  match fuel with
+  | O => false
+  | S f =>
+    match s with
+    | [] => false
+    | _ :: _ =>
+      let '(r, sz) := Base.Utf8.decode_rune s in
+      (128 <=? Base.Unicode.to_upper r) || upper_has_nonascii f (skipn sz s)
+    end
+  end.
+
+(* the names for which the ASCII-only [to_upper] decides every `strings.ToUpper(name) == "ASCII CONSTANT"` test
+   as Go does: ASCII names (strings.ToUpper has no effect outside a-z), and names for which strings.ToUpper
+   is certainly not an ASCII string *)
+Definition name_ok (s : list N) : bool := is_ascii s || upper_has_nonascii (length s) s.
+
+Definition names_ok (ts : list tok) : bool :=
+  forallb (fun t => negb (is_name t) || name_ok (tv t)) ts.
 Definition fuel_for (ts : list tok) : nat := S (S (2 * length ts)).
 
 (* SELECT CAST(x AS <T>) *)
 Definition run_cast_as (toks_t : list tok) : res (list N) :=
   let t := drop_eof (strip_trivia toks_t) in
-  if negb (ascii_names t) then OOF OofNonAsciiName
+  if negb (names_ok t) then OOF OofNonAsciiName
   else
     match cast_as_text (fuel_for t) ((T_AS, [65; 83]) :: t ++ [(T_RPAREN, [41])]) with
     | Ok (txt, []) => Ok txt
@@ -400,7 +428,7 @@ Definition run_cast_as (toks_t : list tok) : res (list N) :=
 (* SELECT x::<T> *)
 Definition run_cast_op (toks_t : list tok) : res (list N) :=
   let t := drop_eof (strip_trivia toks_t) in
-  if negb (ascii_names t) then OOF OofNonAsciiName
+  if negb (names_ok t) then OOF OofNonAsciiName
   else
     match cast_op_text (fuel_for t) ((T_COLONCOLON, [58; 58]) :: t) with
     | Ok (txt, []) => Ok txt
